@@ -13,6 +13,14 @@ CLAIMS = {
    text="TLC explores every placement of a fault among 3 concurrent requests in the model; 12 fault kinds x victim positions are injected into real proxy+agent runs surrounded by healthy concurrent requests, and each recorded run must be a behaviour of Relay in which only declared victims deviate, every other client gets its own OK response, an unreachable backend yields 502, and the agent process is alive at the end.",
    note="Trusted: TLC, chaos shim / scripted backend of the harness (they declare the victim before injecting). A victim may observe any outcome. Interleavings on the real code are sampled, not enumerated. Thorough tier adds -race builds and 4 victim positions.",
    design="6 C07"),
+ "C05": dict(engine="Upload", technique="TLA+ spec Upload (handler, serialiser, upload pipe, replay buffer, poster; lock-step producer liveness Streams; BufferAll attack) checked by TLC + TLC trace validation (UploadTrace) of lock-step streaming runs through the real forwarder in process and the real agent binary",
+   text="TLC proves the liveness property Streams for a lock-step producer in the bounded model and shows that a buffering serialiser violates it; on the real code a backend that emits chunk k+1 only after the proxy side observed chunk k is run for fixed edge chunkings and seeded random chunkings (1 B..200 KB quick, ..4 MB thorough) in both modes, and TLC validates the strict Produce/Observe alternation and completion of every recorded run.",
+   note="Trusted: TLC, the incremental upload parser of the harness (decides when a chunk is completely on the wire). 'Bounded time' is 10 s per chunk; a stall is reported only after it persisted that long.",
+   design="6 C05"),
+ "C06": dict(engine="Upload", technique="TLA+ specs Upload (reader/retry interleavings; StaleReader attack) and UploadObs (observable poster behaviour; Upload refines it, checked by TLC) + TLC-enumerated fault scripts replayed on the real forwarder against a byte-level fault server + TLC trace validation (UploadTrace)",
+   text="TLC checks AckedIntegrity, AtMostThree, RetryOnlyIfReplayable and handler release for all interleavings of stale reader, new reader, serialiser and poster in the bounded model (and the refinement Upload => UploadObs); TLC enumerates all fault scripts (kind x position x attempt), a seeded sample x response sizes around the 4096-byte buffer is run against utils.NewResponseForwarder with a real http.Client, and every recorded run (hooks Attempt/AttemptStatus/BrsRead/BrsSeek + what the endpoint received) must be a behaviour of UploadObs.",
+   note="Trusted: TLC, fault server, reference serialisation from a fault-free run of the same handler script. Which transport goroutine takes the next pipe piece is left to the Go scheduler (not gated). What Close() returns is not judged (not part of the statement). One known finding (stale body reader), see known_findings.txt.",
+   design="6 C06"),
  "C01": dict(engine="Relay", technique="TLA+ spec Relay checked by TLC (exhaustive interleavings, liveness, IdCollision attack) + TLC trace validation (RelayTrace) of recorded executions of the real proxy/agent binaries, incl. -race builds",
    text="Bounded-exhaustive model checking of the proxy/agent relay design (all interleavings of 3 requests, 2-3 pollers, faults) plus conformance: every hook/observable event of bursts of up to 64 concurrent clients through the real binaries must be a behaviour of the specification, with the correlation invariants evaluated at every step.",
    note="Trusted: TLC, the token projection of the harness backend/clients, hook placement (receiver side of channel rendezvous). Bounds: 3 requests in the model, <=64 concurrent clients per burst in the runs. Race-detector reports count only with both stacks in repository code.",
